@@ -38,6 +38,113 @@ def norm_stmt(node) -> str:
     return " ".join(src(node).split())
 
 
+class _Normaliser(ast.NodeTransformer):
+    """semantics-preserving normal form of the analysed AST, so that syntactic rules see one shape for equivalent code:
+         X = E; return X            ->  return E            (adjacent statements, X a plain name)
+         if not C: B  else: A       ->  if C: A  else: B    (a real else branch, not an elif chain)"""
+
+    _counts = None
+
+    def visit_FunctionDef(self, node):
+        outer = self._counts
+        c = {}
+        for n in ast.walk(node):
+            if isinstance(n, ast.Name):
+                c[n.id] = c.get(n.id, 0) + 1
+            elif isinstance(n, (ast.Global, ast.Nonlocal)):
+                for nm in n.names:
+                    c[nm] = c.get(nm, 0) + 100
+            elif isinstance(n, ast.arg):
+                c[n.arg] = c.get(n.arg, 0) + 100
+        self._counts = c
+        try:
+            return self.generic_visit(node)
+        finally:
+            self._counts = outer
+
+    visit_AsyncFunctionDef = visit_FunctionDef
+
+    def _inline_temp(self, s, nxt):
+        """X = E ; <simple statement using X once>   with X occurring nowhere else in the function  ->  statement with E in place of X"""
+        if self._counts is None or not (isinstance(s, ast.Assign) and len(s.targets) == 1 and isinstance(s.targets[0], ast.Name)):
+            return None
+        x = s.targets[0].id
+        if self._counts.get(x) != 2 or not isinstance(nxt, (ast.Assign, ast.Expr, ast.Return, ast.AugAssign, ast.AnnAssign)):
+            return None
+        if any(isinstance(n, (ast.Yield, ast.YieldFrom, ast.Await, ast.NamedExpr, ast.Lambda)) for n in ast.walk(s.value)):
+            return None
+        uses = [n for n in ast.walk(nxt) if isinstance(n, ast.Name) and n.id == x and isinstance(n.ctx, ast.Load)]
+        if len(uses) != 1:
+            return None
+        # not under a comprehension / lambda of the using statement (would be evaluated repeatedly / lazily)
+        for n in ast.walk(nxt):
+            if isinstance(n, (ast.ListComp, ast.SetComp, ast.DictComp, ast.GeneratorExp, ast.Lambda)):
+                inner = list(ast.walk(n))
+                first_iter = n.generators[0].iter if not isinstance(n, ast.Lambda) else None
+                if uses[0] in inner and not (first_iter is not None and uses[0] in list(ast.walk(first_iter))):
+                    return None
+        value = s.value
+
+        class Sub(ast.NodeTransformer):
+            def visit_Name(self, node):
+                return value if node is uses[0] else node
+        return Sub().visit(nxt)
+
+    def _block(self, stmts):
+        out = []
+        k = 0
+        changed = True
+        while changed:
+            changed = False
+            k = 0
+            res = []
+            while k < len(stmts):
+                s = stmts[k]
+                nxt = stmts[k + 1] if k + 1 < len(stmts) else None
+                r = self._inline_temp(s, nxt) if nxt is not None else None
+                if r is not None:
+                    res.append(r)
+                    k += 2
+                    changed = True
+                    continue
+                res.append(s)
+                k += 1
+            stmts = res
+        k = 0
+        while k < len(stmts):
+            s = stmts[k]
+            nxt = stmts[k + 1] if k + 1 < len(stmts) else None
+            if isinstance(s, ast.Assign) and len(s.targets) == 1 and isinstance(s.targets[0], ast.Name) and isinstance(nxt, ast.Return) and \
+                    isinstance(nxt.value, ast.Name) and nxt.value.id == s.targets[0].id:
+                out.append(ast.copy_location(ast.Return(value=s.value), s))
+                k += 2
+                continue
+            out.append(s)
+            k += 1
+        return out
+
+    def generic_visit(self, node):
+        super().generic_visit(node)
+        for f in ("body", "orelse", "finalbody"):
+            b = getattr(node, f, None)
+            if isinstance(b, list) and b and isinstance(b[0], ast.stmt):
+                setattr(node, f, self._block(b))
+        return node
+
+    def visit_If(self, node):
+        self.generic_visit(node)
+        if isinstance(node.test, ast.UnaryOp) and isinstance(node.test.op, ast.Not) and node.orelse and \
+                not (len(node.orelse) == 1 and isinstance(node.orelse[0], ast.If)):
+            node.test, node.body, node.orelse = node.test.operand, node.orelse, node.body
+        return node
+
+
+def normalise_tree(tree: ast.AST) -> ast.AST:
+    t = _Normaliser().visit(tree)
+    ast.fix_missing_locations(t)
+    return t
+
+
 @dataclass
 class FunctionInfo:
     name: str
@@ -180,6 +287,7 @@ class Repo:
                 tree = ast.parse(source, filename=path)
             except SyntaxError as e:
                 raise AnalysisError(f"cannot parse {rel}: {e}")
+        tree = normalise_tree(tree)
         set_parents(tree)
         m = ModuleInfo(name=name, path=path, relpath=rel, source=source, tree=tree, is_snake=is_snake)
         self._index(m)
